@@ -1518,7 +1518,12 @@ impl<F: Send + 'static> Sampler<F> {
         let result = self.main_thread.join();
         match result {
             Err(payload) => std::panic::resume_unwind(payload),
-            Ok(Ok(val)) => Ok(val),
+            Ok(Ok((err, trace))) => {
+                // A chain that failed reported its error on the results channel; do not
+                // report success for such a run.
+                let chain_err = self.results.try_iter().find_map(|res| res.err());
+                Ok((err.or(chain_err), trace))
+            }
             Ok(Err(err)) => Err(err),
         }
     }
